@@ -219,14 +219,23 @@ class History:
         """queries with two roots / no root must be rejected by find_EventDataset"""
         from func_adl import find_EventDataset
         out = []
-        if len(self.streams) >= 1:
-            a, b = self.streams[0], self.streams[-1]
+        rooted = [s for s in self.streams if self._root_of(s) != 0]      # (streams over a bare name have no dataset)
+        if len(rooted) >= 1:
+            a, b = rooted[0], rooted[-1]
             two = ast.Call(func=ast.Name(id="Zip", ctx=ast.Load()), args=[a.query_ast, b.query_ast], keywords=[])
             nested = ast.Call(func=ast.Name(id="Select", ctx=ast.Load()),
                               args=[a.query_ast, ast.Lambda(args=ast.arguments(posonlyargs=[], args=[ast.arg(arg="e")],
                                     kwonlyargs=[], kw_defaults=[], defaults=[]), body=b.query_ast)], keywords=[])
             none = ast.parse("Select(seq, lambda e: e.x)").body[0].value
-            for kind, q in (("two", two), ("nested", nested), ("none", none)):
+            # the second root inside a keyword argument / inside a keyword argument within a lambda
+            kw = ast.Call(func=ast.Name(id="Zip", ctx=ast.Load()), args=[a.query_ast],
+                          keywords=[ast.keyword(arg="other", value=b.query_ast)])
+            kwl = ast.Call(func=ast.Name(id="Select", ctx=ast.Load()),
+                           args=[a.query_ast, ast.Lambda(args=ast.arguments(posonlyargs=[], args=[ast.arg(arg="e")],
+                                 kwonlyargs=[], kw_defaults=[], defaults=[]),
+                                 body=ast.Call(func=ast.Name(id="Zip", ctx=ast.Load()), args=[ast.Name(id="e", ctx=ast.Load())],
+                                               keywords=[ast.keyword(arg="other", value=b.query_ast)]))], keywords=[])
+            for kind, q in (("two", two), ("nested", nested), ("none", none), ("keyword", kw), ("keyword-in-lambda", kwl)):
                 try:
                     find_EventDataset(q)
                     out.append({"kind": kind, "raised": False})
@@ -242,6 +251,19 @@ class History:
             typed = a["op"] == "Evt"
             self.streams.append(self.DS(self.nds, typed))
             self.shadow.append(self.DS(-self.nds, typed, shadow=True))
+            return
+        if act == "NewNameRoot":
+            from func_adl import ObjectStream
+            self.streams.append(ObjectStream(ast.Name(id="e", ctx=ast.Load())))
+            self.shadow.append(ObjectStream(ast.Name(id="e", ctx=ast.Load())))
+            return
+        if act == "NewSkim":
+            # a dataset defined by a query on another dataset: the producing query is the root node's argument
+            self.nds += 1
+            for lst, idx, shadow in ((self.streams, self.nds, False), (self.shadow, -self.nds, True)):
+                d = self.DS(idx, False, shadow=shadow)
+                d.query_ast.args.append(lst[a["s"] - 1].query_ast)
+                lst.append(d)
             return
         if act in ("ExecReturn", "ExecRaise"):
             task, fut = self.tasks[a["c"]]
